@@ -2,6 +2,7 @@ package checks
 
 import (
 	"fmt"
+	"reflect"
 	"strings"
 
 	"github.com/influxdata/influxql"
@@ -100,6 +101,164 @@ func c01Expr(c *Ctx, idx int, local map[string]int64) {
 	mergeFeat(local, g.Feat)
 }
 
+// c01Query joins 2-4 generated statements with `;` (any whitespace around the
+// separator, optional trailing `;`) and requires ParseQuery to return exactly
+// the intended statements, in order: each statement must stop consuming text
+// where its own grammar ends.
+func c01Query(c *Ctx, idx int, local map[string]int64) {
+	r := c.R
+	rg := mon.NewRng(c.Seed, "c01.query", idx)
+	n := 2 + rg.Intn(3)
+	var want []influxql.Statement
+	var sb strings.Builder
+	var kinds []string
+	for j := 0; j < n; j++ {
+		kind, mask := -1, -1
+		if rg.P(0.5) {
+			// all options left out: the statement ends right after its mandatory part
+			kind, mask = rg.Intn(len(gen.Kinds)), 0
+		}
+		gc := genCase(c.Seed, "c01.query.stmt", idx*8+j, kind, mask, gen.Opts{Simple: rg.Bool(), MaxDepth: 1}, "random")
+		if j > 0 {
+			sb.WriteString(rg.Pick("", " ", "\n", "\t ") + ";" + rg.Pick("", " ", "\n", " \r\n"))
+		}
+		sb.WriteString(gc.Text)
+		want = append(want, gc.Want)
+		kinds = append(kinds, gen.Kinds[gc.Kind].Name)
+		local["query.kind."+gen.Kinds[gc.Kind].Name]++
+	}
+	if rg.P(0.3) {
+		sb.WriteString(rg.Pick(";", " ;", "; ", ";\n"))
+	}
+	text := sb.String()
+	det := func(why string) map[string]interface{} {
+		return map[string]interface{}{"sub": "query", "idx": idx, "input": text, "kinds": kinds, "why": why}
+	}
+	var q *influxql.Query
+	var err error
+	if p, pv, stk := mon.Try(func() { q, err = influxql.ParseQuery(text) }); p {
+		d := det(fmt.Sprint(pv))
+		d["stack"] = stk
+		r.Violation("panic-in-parse", d)
+		return
+	}
+	r.Eval(1)
+	r.DistinctStr("query|" + text)
+	if err != nil {
+		r.Violation("grammatical-query-rejected", det(err.Error()))
+		return
+	}
+	if len(q.Statements) != n {
+		r.Violation("query-statement-count", det(fmt.Sprintf("%d statements written, %d returned", n, len(q.Statements))))
+		return
+	}
+	for j := range want {
+		if a, b := dumpOf(want[j]), dumpOf(q.Statements[j]); a != b {
+			r.Violation("ast-differs-from-denoted", det(fmt.Sprintf("statement %d (%s): %s", j, kinds[j], astx.FirstDiff(a, b))))
+			return
+		}
+	}
+	local["query-equal"]++
+}
+
+// langShape records the dispatch tree: every path with its handler tokens and
+// the code address of each handler.
+func langShape(t *influxql.ParseTree, path string, out map[string]uintptr) {
+	for tok, h := range t.Handlers {
+		out[path+"/"+tok.String()] = reflect.ValueOf(h).Pointer()
+	}
+	for tok, sub := range t.Tokens {
+		out[path+"/"+tok.String()+"/"] = 0
+		langShape(sub, path+"/"+tok.String(), out)
+	}
+}
+
+// customiseLanguage registers a foreign statement under every group of t,
+// replaces every handler, and adds a new nested group at every level; it
+// returns the number of groups visited.
+func customiseLanguage(t *influxql.ParseTree) int {
+	foreign := func(p *influxql.Parser) (influxql.Statement, error) {
+		return &influxql.ShowDatabasesStatement{}, nil
+	}
+	groups := 0
+	var visit func(t *influxql.ParseTree)
+	visit = func(t *influxql.ParseTree) {
+		groups++
+		// a new statement under this prefix
+		for _, tok := range []influxql.Token{influxql.ANY, influxql.STATS, influxql.DESTINATIONS} {
+			if _, a := t.Handlers[tok]; a {
+				continue
+			}
+			if _, b := t.Tokens[tok]; b {
+				continue
+			}
+			mon.Try(func() { t.Handle(tok, foreign) })
+			break
+		}
+		for tok := range t.Handlers {
+			t.Handlers[tok] = foreign
+		}
+		for _, sub := range t.Tokens {
+			visit(sub)
+		}
+		mon.Try(func() { t.Group(influxql.ALL, influxql.ANY).Handle(influxql.ALL, foreign) })
+	}
+	visit(t)
+	return groups
+}
+
+// c01LanguageClone customises a clone of the process-wide dispatch tree the
+// way an embedding server does (new statements under existing prefixes,
+// replaced handlers, at every depth) and requires the default language to be
+// untouched. It runs before the rest of the workload, so a leak would also
+// show as wrong ASTs there.
+func c01LanguageClone(c *Ctx) {
+	r := c.R
+	before := map[string]uintptr{}
+	langShape(influxql.Language, "", before)
+	groups := 0
+	visit := func(t *influxql.ParseTree, _ string) { groups += customiseLanguage(t) }
+	for round := 0; round < 2; round++ {
+		cl := influxql.Language.Clone()
+		visit(cl, "")
+		// the clone speaks the customised language
+		p := influxql.NewParser(strings.NewReader("KILL QUERY 4"))
+		if st, err := cl.Parse(p); err != nil || dumpOf(st) != dumpOf(&influxql.ShowDatabasesStatement{}) {
+			r.Inconclusive(fmt.Sprintf("customised clone did not dispatch to the replaced handler (err=%v)", err))
+		}
+	}
+	r.Eval(groups)
+	r.Count("language-clone.groups-customised", int64(groups))
+	after := map[string]uintptr{}
+	langShape(influxql.Language, "", after)
+	for k, v := range before {
+		if w, ok := after[k]; !ok || w != v {
+			r.Violation("default-language-changed-by-clone", map[string]interface{}{"sub": "language-clone", "input": k, "why": "customising Language.Clone() changed the process-wide Language at " + k})
+			return
+		}
+	}
+	for k := range after {
+		if _, ok := before[k]; !ok {
+			r.Violation("default-language-changed-by-clone", map[string]interface{}{"sub": "language-clone", "input": k, "why": "customising Language.Clone() added " + k + " to the process-wide Language"})
+			return
+		}
+	}
+	for _, q := range []string{"KILL QUERY 4", "SHOW GRANTS FOR u", "DROP RETENTION POLICY rp ON db", "SET PASSWORD FOR u = 'x'", "SHOW TAG KEYS", "SHOW CONTINUOUS QUERIES", "ALTER RETENTION POLICY rp ON db DEFAULT"} {
+		st, err := influxql.ParseStatement(q)
+		if err != nil || strings.HasPrefix(dumpOf(st), dumpOf(&influxql.ShowDatabasesStatement{})) {
+			r.Violation("default-language-changed-by-clone", map[string]interface{}{"sub": "language-clone", "input": q, "why": fmt.Sprintf("after customising a clone the default language parses this as %T (err=%v)", st, err)})
+			return
+		}
+	}
+	for _, q := range []string{"SHOW TAG STATS", "SHOW TAG ANY", "KILL ANY", "ALL ANY ALL", "SHOW GRANTS ANY"} {
+		if _, err := influxql.ParseStatement(q); err == nil {
+			r.Violation("default-language-changed-by-clone", map[string]interface{}{"sub": "language-clone", "input": q, "why": "foreign statement registered on a clone is accepted by the default language"})
+			return
+		}
+	}
+	r.Count("language-clone.default-unchanged", 1)
+}
+
 // c01Known recognises known C01 deviations by their precise shape.
 func c01Known(gc *GCase, errText string) string {
 	return ""
@@ -107,7 +266,7 @@ func c01Known(gc *GCase, errText string) string {
 
 func checkC01(c *Ctx) (string, bool, []string) {
 	r := c.R
-	rule := "AST-first generation: for each of the 44 statement kinds every subset of its optional clauses with minimal payloads (exhaustive), rendered in two layouts; plus random payloads (names of 1-3 segments, regex sources, back-references, subqueries, casts, wildcards, calls, all operators, every literal kind incl. boundary integers, signed operands) in random spellings (keyword case, quoting, escapes, number and duration spellings, whitespace kinds). Each text goes through ParseQuery and ParseStatement, and stand-alone generated expressions through ParseExpr; every result is compared structurally with the intended AST. Non-trivial = at least one optional clause present or an expression with an operator; distinct by text."
+	rule := "AST-first generation: for each of the 44 statement kinds every subset of its optional clauses with minimal payloads (exhaustive), rendered in two layouts; plus random payloads (names of 1-3 segments, regex sources, back-references, subqueries, casts, wildcards, calls, all operators, every literal kind incl. boundary integers, signed operands) in random spellings (keyword case, quoting, escapes, number and duration spellings, whitespace kinds). Each text goes through ParseQuery and ParseStatement, and stand-alone generated expressions through ParseExpr; every result is compared structurally with the intended AST. Queries of 2-4 generated statements joined by `;` must return exactly the intended statement list (half of the members with every option left out, so each kind is followed directly by the separator). Before the workload, clones of the dispatch tree are customised at every group (new statements, replaced handlers) and the default language must be unchanged. Non-trivial = at least one optional clause present or an expression with an operator; distinct by text."
 	assume := []string{"the generator's model of the grammar (README plus parser extensions listed in DESIGN.md section 2)", "structural equality = astx canonical dump"}
 	if c.Replay != nil {
 		opt := gen.Opts{}
@@ -126,6 +285,14 @@ func checkC01(c *Ctx) (string, bool, []string) {
 			c01Expr(c, replayInt(c, "idx"), map[string]int64{})
 			return rule, false, assume
 		}
+		if sub == "query" {
+			c01Query(c, replayInt(c, "idx"), map[string]int64{})
+			return rule, false, assume
+		}
+		if sub == "language-clone" {
+			c01LanguageClone(c)
+			return rule, false, assume
+		}
 		kind := replayInt(c, "kind_index")
 		mask := replayInt(c, "mask")
 		if strings.HasPrefix(sub, "random") {
@@ -135,6 +302,8 @@ func checkC01(c *Ctx) (string, bool, []string) {
 		c01One(c, gc, sub, map[string]int64{})
 		return rule, false, assume
 	}
+	// 0. API history: customised clones of the dispatch tree
+	c01LanguageClone(c)
 	// 1. exhaustive clause subsets
 	type job struct{ kind, mask int }
 	var jobs []job
@@ -187,6 +356,16 @@ func checkC01(c *Ctx) (string, bool, []string) {
 		c01Expr(c, i, local)
 		r.MergeCounts(local)
 	})
+	nq := c.N(15000, 400000)
+	mon.Parallel(nq, c.Workers, func(i int) {
+		local := map[string]int64{}
+		c01Query(c, i, local)
+		r.MergeCounts(local)
+	})
+	r.Require(r.Counter("query-equal") > 0, "no multi-statement query compared")
+	for _, kd := range gen.Kinds {
+		r.Require(r.Counter("query.kind."+kd.Name) > 0, "statement kind "+kd.Name+" never placed inside a multi-statement query")
+	}
 	r.Require(r.Counter("expr-equal") > 0 && r.Counter("ParseStatement-equal") > 0, "ParseExpr / ParseStatement never compared")
 	for _, kd := range gen.Kinds {
 		r.Require(r.Counter("kind."+kd.Name) > 0, "statement kind "+kd.Name+" never generated")
